@@ -12,7 +12,8 @@ CONSTANTS Depth,      \* number of operation layers above the leaves
           BoundsNeg,  \* magnitudes of the negative index / slice bounds (cfg files cannot hold negative numbers)
           Pads,       \* tobits(n) / tobytes(n) arguments
           ArrLen,     \* max length of literal arrays of atoms
-          Rich        \* TRUE: larger literal pools
+          Rich,       \* TRUE: larger literal pools
+          ArrAt       \* arrays are built around computed values of at most this many operation layers
 
 Bounds == BoundsPos \cup {0 - k : k \in BoundsNeg}
 
@@ -62,7 +63,7 @@ Next == /\ Height(e) < Depth
         /\ Good(e)
         /\ \/ \E o \in ConvOpSet : e' = OpE(o, e)
            \/ EvalB(e).t = "bin" /\ \E o \in BinOpSet : e' = OpE(o, e)
-           \/ e.k = "op" /\ \E s \in Side : e' \in {ArrE(<<e>>), ArrE(<<e, s>>), ArrE(<<s, e>>), ArrE(<<e, e>>)}
+           \/ e.k = "op" /\ Height(e) <= ArrAt /\ \E s \in Side : e' \in {ArrE(<<e>>), ArrE(<<e, s>>), ArrE(<<s, e>>), ArrE(<<e, e>>)}
 Spec == Init /\ [][Next]_e
 
 Case(x) == [txt |-> Txt(x), pred |-> EvalB(x)]
@@ -81,6 +82,6 @@ SimNext == /\ EmitSim
            /\ Good(e)
            /\ \/ \E o \in ConvOpSet : e' = OpE(o, e)
               \/ EvalB(e).t = "bin" /\ \E o \in SimBinOps : e' = OpE(o, e)
-              \/ e.k = "op" /\ \E s \in Side : e' \in {ArrE(<<e>>), ArrE(<<e, s>>), ArrE(<<s, e>>), ArrE(<<e, e>>)}
+              \/ e.k = "op" /\ Height(e) <= ArrAt /\ \E s \in Side : e' \in {ArrE(<<e>>), ArrE(<<e, s>>), ArrE(<<s, e>>), ArrE(<<e, e>>)}
 SimSpec == Init /\ [][SimNext]_e
 =============================================================================
